@@ -409,6 +409,14 @@ class Gen:
             yield op
         else:
             yield self.g_define(w, 0, r.choice(self.syms))
+        if kind in ("add", "define") and r.random() < 0.6:
+            # a symbol the program itself put into the default registry: modify / remove must refuse it as well
+            mine = [s_ for s_ in self.syms if s_ in w.nodes[0].model] or [sym]
+            tgt = r.choice(mine)
+            yield r.choice([{"k": "modify", "node": 0, "h": 0, "sym": tgt, "value": r.choice(SCALES)},
+                            {"k": "remove", "node": 0, "h": 0, "sym": tgt},
+                            {"k": "modify_q", "node": 0, "h": 0, "sym": tgt, "v": 3.0, "s": "s"}])
+            yield self.g_probe_string(w, 0, sym=tgt)
         for _ in range(r.randrange(1, 3)):
             yield self.g_probe_string(w, 0, sym=sym)
 
